@@ -28,6 +28,9 @@ VUnion(n, fs)  == [t |-> "union",  i |-> L0, s |-> n,  f |-> fs,   r |-> 0]   \*
 VTuple(fs)     == [t |-> "tuple",  i |-> L0, s |-> "", f |-> fs,   r |-> 0]
 VFn(n)         == [t |-> "fn",     i |-> L0, s |-> n,  f |-> <<>>, r |-> 0]
 VVoid          == [t |-> "void",   i |-> L0, s |-> "", f |-> <<>>, r |-> 0]
+\* floats: only literals that are multiples of 1/64 of moderate size (exact in IEEE double), carried as 64 * value;
+\* they can be stored, passed and compared, never computed with or printed (C01 excludes printed floats)
+VFloat(l)      == [t |-> "float",  i |-> l,  s |-> "", f |-> <<>>, r |-> 0]
 IsTrue(v) == v.i[4] = 1
 
 \* ---------------------------------------------------------------- state
@@ -101,10 +104,10 @@ BinApply(C, op, x, y, st) ==
         ELSE IF op = "+" /\ x.t = "str" /\ y.t = "str" THEN RV(VStr(x.s \o y.s), st)
         ELSE RV(VVoid, Fault(st, "stuck:type"))
    ELSE IF op \in CmpOps THEN
-        IF x.t = "int" /\ y.t = "int" THEN RV(VBool(CmpOp(op, x.i, y.i)), st)
+        IF (x.t = "int" /\ y.t = "int") \/ (x.t = "float" /\ y.t = "float") THEN RV(VBool(CmpOp(op, x.i, y.i)), st)
         ELSE RV(VVoid, Fault(st, "stuck:type"))
    ELSE IF op \in {"==", "!="} THEN
-        IF x.t = y.t /\ x.t \in {"int", "bool", "str"}
+        IF x.t = y.t /\ x.t \in {"int", "bool", "str", "float"}
         THEN RV(VBool(IF op = "==" THEN ValEq(x, y) ELSE ~ValEq(x, y)), st)
         ELSE RV(VVoid, Fault(st, "stuck:type"))
    ELSE RV(VVoid, Fault(st, "stuck:op"))
@@ -148,6 +151,7 @@ Eval(C, e, st0) ==
    LET st == Tick(st0) IN
    IF Bad(st) THEN RV(VVoid, st) ELSE
    CASE e.k = "int"  -> RV(VInt(e.i), st)
+     [] e.k = "float" -> RV(VFloat(e.i), st)
      [] e.k = "bool" -> RV(VBool(e.s = "true"), st)
      [] e.k = "str"  -> RV(VStr(e.s), st)
      [] e.k = "var"  -> LET l == LookupVar(C, e.s, st) IN
